@@ -78,7 +78,7 @@ pub fn suite(name: &str, thorough: bool) -> Suite {
         }
         "C03" => {
             s.kinds.extend([KindId::OVecZst, KindId::OArrayZst, KindId::SliceZst]);
-            s.alphabet = alphabet(&["N", "C1:a", "C2:a", "C2:1", "C3:0", "C3:a", "CL0:a", "CL1:a", "CL1:1", "BN1", "BN2", "BN3", "BNL1", "BXa", "BX1", "BX0", "S", "HC3", "HN1", "HD", "CV3:1", "CV2:9", "CV3:20", "CV2:21", "CV3:22", "BV1", "BV9"]);
+            s.alphabet = alphabet(&["N", "C1:a", "C2:a", "C2:1", "C3:0", "C3:a", "CL0:a", "CL1:a", "CL1:1", "BN1", "BN2", "BN3", "BNL1", "BNMx", "BXa", "BX1", "BX0", "S", "HC3", "HN1", "HD", "CV3:1", "CV2:9", "CV3:20", "CV2:21", "CV3:22", "BV1", "BV9"]);
             s.depth = if thorough { 5 } else { 4 };
             s.terms = vec![Term::Drop, Term::Seq(ALL)];
         }
